@@ -45,7 +45,14 @@ def r1_folding_pair(ctx, rule="C09.R1"):
     ctx.decide(ok, rule, rule + ":hash-folds", hs.loc, "every hashed byte is to_ascii_uppercase(byte)",
                "hash_str feeds a byte to the hasher that is not folded with to_ascii_uppercase: two "
                "spellings of one identifier hash differently")
-    cb = _fn(prog, "rusty_common", "cmp_bytes")
+    # the byte comparison lives in cmp_str or in a private helper of it (cmp_bytes): found by what
+    # it does (the function of that module that calls Ord::cmp), not by its name
+    cs = _fn(prog, "rusty_common", "cmp_str")
+    cands = [cs] + [prog.fns[c] for c in prog.call_edges(cs) if c in prog.fns and prog.fns[c].crate == "rusty_common"]
+    cands = [c for c in cands if any((t.get("cpath") or "") == "std::cmp::Ord::cmp" for _b, t in c.body.calls())]
+    if len(cands) != 1:
+        raise CheckError("%s: the byte comparison of cmp_str is in %d functions" % (rule, len(cands)))
+    cb = cands[0]
     pv = mir.Prov(cb.body)
     cmps = [t for _b, t in cb.body.calls() if (t.get("cpath") or "") == "std::cmp::Ord::cmp"]
     ok = len(cmps) == 1
@@ -544,6 +551,15 @@ def r13_lookahead_guard_is_tight(ctx, rule="C09.R13"):
                    "character exists but is not looked at - a CR LF there is counted as two line ends, so every "
                    "position after it (and the end-of-input position) is one row too far"
                    % ("" if g[1] else "not ", show(g[0]), show(goal)))
+    if n == 0:
+        # no indexed look-ahead at all: `chars.get(i + 1)` answers None exactly when the next
+        # character does not exist, which is the tight guard by construction
+        gets = [t for _b, t in f.body.calls() if (t.get("cpath") or "").endswith("::get")
+                and ("[" in (t.get("self_ty") or "") or "slice" in (t.get("cpath") or ""))]
+        if not gets:
+            raise CheckError("%s: create_row_col_view has neither an indexed nor a checked look-ahead" % rule)
+        ctx.ok(rule, "%s:create_row_col_view:lookahead-checked-get" % rule, f.loc,
+               "the look-ahead uses slice::get, which is None exactly when the next character does not exist")
     ctx.require(rule, 1)
 
 
